@@ -289,7 +289,19 @@ pub broadcast axiom fn axiom_cow_owned_bytes(c: std::borrow::Cow<'_, [u8]>, r: V
         #[trigger] cow_owned::<[u8]>(c, r) ==> r@ == cow_u8(&c),
 ;
 
+pub broadcast axiom fn axiom_cow_len_bound_u8(c: &std::borrow::Cow<'_, [u8]>)
+    ensures
+        (#[trigger] cow_u8(c)).len() <= isize::MAX,
+;
+
+pub broadcast axiom fn axiom_cow_len_bound_str(c: &std::borrow::Cow<'_, str>)
+    ensures
+        (#[trigger] cow_str_bytes(c)).len() <= isize::MAX,
+;
+
 pub broadcast group group_cow {
+    axiom_cow_len_bound_u8,
+    axiom_cow_len_bound_str,
     axiom_cow_slice_rel_u8,
     axiom_cow_owned_str,
     axiom_cow_owned_bytes,
